@@ -195,8 +195,8 @@ def Expr.inlineCleanB : Expr → Bool
   | .binding _ v _ _ _ => v.inlineCleanB
   | .paren v lg _ _ _ _ _ => ((Layout.fromGap lg).onNewline || v.before.isEmpty) && v.inlineCleanB
   | .app n x g _ _ _ => ((Layout.fromGap g).onNewline || x.before.isEmpty) && n.inlineCleanB && x.inlineCleanB
-  | .wth .. => false     -- `with` / `assert`: outside the spacing theorem so far (`File.basic`)
-  | .asrt .. => false
+  | .wth env body _ _ _ _ _ => env.inlineCleanB && body.inlineCleanB
+  | .asrt .. => false     -- `assert`: outside the spacing theorem so far (`File.basic`)
   | .sel e _ _ _ _ _ => e.inlineCleanB
   | .selOr e _ _ _ d _ _ _ _ => e.inlineCleanB && d.inlineCleanB
   | .lam _ _ _ _ body _ _ => body.inlineCleanB
@@ -227,8 +227,8 @@ def Expr.beforeFlatB : Expr → Bool
   | .binding _ v _ _ _ => v.beforeFlatB
   | .paren v lg _ _ _ _ _ => ((Layout.fromGap lg).onNewline || v.before.isEmpty) && v.beforeFlatB
   | .app n x g _ _ _ => ((Layout.fromGap g).onNewline || x.before.isEmpty) && n.beforeFlatB && x.beforeFlatB
-  | .wth .. => false     -- `with` / `assert`: outside the spacing theorem so far (`File.basic`)
-  | .asrt .. => false
+  | .wth env body _ _ _ _ _ => env.beforeFlatB && body.beforeFlatB
+  | .asrt .. => false     -- `assert`: outside the spacing theorem so far (`File.basic`)
   | .sel e _ _ _ _ _ => e.beforeFlatB
   | .selOr e _ _ _ d _ _ _ _ => e.beforeFlatB && d.beforeFlatB
   | .lam _ _ _ _ body _ _ => body.beforeFlatB
@@ -253,8 +253,8 @@ def Expr.beforeFlatG : Expr → Bool
   | .binding _ v _ _ _ => v.beforeFlatG
   | .paren v _ _ _ _ _ _ => v.beforeFlatG
   | .app n x _ _ _ _ => n.beforeFlatG && x.beforeFlatG
-  | .wth .. => false
-  | .asrt .. => false
+  | .wth env body _ _ _ _ _ => env.beforeFlatG && body.beforeFlatG
+  | .asrt .. => false     -- `assert`: outside the spacing theorem so far (`File.basic`)
   | .sel e _ _ _ _ _ => e.beforeFlatG
   | .selOr e _ _ _ d _ _ _ _ => e.beforeFlatG && d.beforeFlatG
   | .lam _ _ _ _ body _ _ => body.beforeFlatG
@@ -277,8 +277,8 @@ def Expr.beforeFlatP : Expr → Bool
   | .binding _ v _ _ _ => v.beforeFlatP
   | .paren v lg _ _ _ _ _ => ((Layout.fromGap lg).onNewline || v.before.isEmpty) && v.beforeFlatP
   | .app n x _ _ _ _ => n.beforeFlatP && x.beforeFlatP
-  | .wth .. => false
-  | .asrt .. => false
+  | .wth env body _ _ _ _ _ => env.beforeFlatP && body.beforeFlatP
+  | .asrt .. => false     -- `assert`: outside the spacing theorem so far (`File.basic`)
   | .sel e _ _ _ _ _ => e.beforeFlatP
   | .selOr e _ _ _ d _ _ _ _ => e.beforeFlatP && d.beforeFlatP
   | .lam _ _ _ _ body _ _ => body.beforeFlatP
@@ -332,7 +332,7 @@ def Cst.basic : Cst → Bool
   | .set _ _ its _ => its.basic
   | .paren its _ => its.basic
   | .app f _ _ a => f.basic && a.basic
-  | .kw .. => false
+  | .kw w _ _ h _ _ _ _ b => w && h.basic && b.basic     -- `with`; not `assert`
   | .sel e _ _ _ _ => e.basic
   | .selOr e _ _ _ _ _ _ _ d => e.basic && d.basic
   -- at most one blank line between the colon of a lambda and its body (`cex_blank_lines_after_colon`)
